@@ -36,7 +36,18 @@ def node(focus, budget_q=60, budget_t=1500, variants=None, extra_assume=None, re
     }
 
 
+CLA_RULE = ("one evaluation = one seeded trace over {register, register same address again, unregister, restart, peer-disappeared, retry tick(s), close} "
+            "for 1..3 adapters (permanent/non-permanent, sender/receiver, start outcomes ok/retry/final drawn per call from the seed) and retry budget 0..3, "
+            "replayed against the real cla.Manager under the fake clock and compared step by step with a reference state machine; non-trivial = at least one "
+            "failed start or peer loss happened; distinct = distinct canonical log (listing + per-adapter Start/Close history after every step).")
+
 PROPS = {
+    "C16": {"pkg": "pkg/cla", "binary": "cla.test", "harness": "cla", "focus": "C16", "variants": [""],
+            "budget": {"quick": 40, "thorough": 900}, "level": "exploration", "rule": CLA_RULE,
+            "real": ["cla.Manager (handler goroutine, retry ticker, registration table)", "convergenceElem activate/deactivate/handler"],
+            "stub": ["convergence adapters: scripted Start/Close/Channel (that is the seam the property is about)"],
+            "assumptions": COMMON_ASSUME + ["the order in which several waiting adapters are started on one retry tick (sync.Map order) is not owned; adapters are independent and the log is per adapter"],
+            "required_probes": ["start_fail_retry", "retry_tick_started_adapter"]},
     "C05": node("C05", required=["send_ok", "retention_checked"]),
     "C06": node("C06", required=["send_ok", "copy_checked", "age_checked"]),
     "C13": node("C13", required=["send_ok"], variants=["epidemic", "spray", "binary_spray", "prophet", "dtlsr", "sensor-mule"]),
@@ -49,6 +60,10 @@ NODE_NOTE = ("trusted: Go 1.26.8 runtime + testing/synctest fake clock, the harn
              "not covered: real sockets, disk faults below the file API, backward clock jumps; sampling only")
 
 MANIFEST_TEXT = {
+    "C16": {"text": "Seeded traces of adapter life-cycle events replayed against the real cla.Manager under the fake clock; after every settled step the "
+                    "Sender()/Receiver() listing and every adapter's Start/Close history are compared with a reference state machine derived from the "
+                    "statement (active iff latest start succeeded and not closed since, retry budget, permanent retries, single instance, close once, no panic).",
+            "design_ref": "DESIGN.md §4 C16, App. A.3", "note": "trusted: synctest fake clock, scripted adapters, the reference machine; sampling only", "technique": DST},
     "C05": {"text": "Seeded exploration of node-level histories (submit/deliver/peer up/down/advance/restart, send failures, both serial and interleaved "
                     "schedules at store-write hooks) against retention, direct-delivery, epidemic-spread and bounded retry-liveness oracles on the real "
                     "Core+store+cron+CLA manager, all six algorithms. Evidence for the sampled runs, not proof.",
